@@ -118,6 +118,9 @@ def _fd_case(draw):
         "C": _mat(draw, m, n, -2, 2), "x": [draw(gen.f(-2, 2)) for _ in range(n)],
         "method": draw(st.sampled_from(["2-point", "3-point", "cs"])),
         "eps": draw(st.sampled_from([None, 1e-6, 1e-5, 1e-7])),
+        # evaluation point far from the origin: x = x_small + X0 with |X0_j| up to 1e8, function g(y - X0) (values O(1),
+        # evaluated without cancellation error because y - X0 is exact for y near X0)
+        "X0": [draw(st.sampled_from([0.0, 0.0, 1.0, -1.0])) * 10.0 ** draw(st.integers(0, 8)) for _ in range(n)],
     }
 
 
@@ -274,9 +277,11 @@ def _check_fd(spec, res):
     B = np.array(spec["B"], dtype=float).reshape(k, n)
     p = np.array(spec["p"], dtype=float)
     C = np.array(spec["C"], dtype=float).reshape(m, n)
-    x = np.array(spec["x"], dtype=float).reshape(xs)
-    f = lambda y: (A @ np.sin(B @ y.reshape(-1) + p) + C @ y.reshape(-1)).reshape(fs)
-    exact = (A @ np.diag(np.cos(B @ x.reshape(-1) + p)) @ B + C).reshape(fs + xs)
+    X0 = np.array(spec.get("X0", [0.0] * n), dtype=float)
+    x = (np.array(spec["x"], dtype=float) + X0).reshape(xs)  # rounded to the floating-point grid near X0
+    xsm = x.reshape(-1) - X0  # exact (Sterbenz), the small argument that corresponds to the rounded x
+    f = lambda y: (A @ np.sin(B @ (y.reshape(-1) - X0) + p) + C @ (y.reshape(-1) - X0)).reshape(fs)
+    exact = (A @ np.diag(np.cos(B @ xsm + p)) @ B + C).reshape(fs + xs)
     method = spec["method"]
     eps = 1e-6 if spec["eps"] is None else spec["eps"]
     kw = {} if spec["eps"] is None else {"eps": eps}
@@ -288,7 +293,7 @@ def _check_fd(spec, res):
         res.fail("fd_shape", site, None, feats, f"{np.shape(got)} vs {np.squeeze(exact).shape}")
         return
     em = 2.3e-16
-    M0 = np.sum(np.abs(A), axis=1) + np.abs(C) @ np.abs(x.reshape(-1))  # bound on |f_i|
+    M0 = np.sum(np.abs(A), axis=1) + np.abs(C) @ (np.abs(xsm) + 1e-4)  # bound on |f_i|
     M2 = np.abs(A) @ (B**2)  # (m, n): bound on |d2 f_i / dx_j^2|
     M3 = np.abs(A) @ (np.abs(B) ** 3)
     M1 = np.abs(A) @ np.abs(B) + np.abs(C)
@@ -305,7 +310,7 @@ def _check_fd(spec, res):
     if not ratio <= 1.0:
         res.fail("fd_accuracy", site, ratio, feats, f"max error/bound = {ratio:.3e}, max err {float(err.max()):.3e}")
     res.nontrivial = len(xs) == 2 or len(fs) == 2
-    res.label(f"fd:{method}")
+    res.label(f"fd:{method}", "fd:far_from_origin" if np.any(np.abs(X0) >= 1e4) else "fd:near_origin")
 
 
 def check(spec):
